@@ -409,6 +409,11 @@ class Run:
                 self.nodes[op["up"]].disconnect(self.nodes[op["down"]])
             elif kind == "destroy":
                 self.nodes[op["node"]].destroy()
+            elif kind == "start":
+                self.nodes[op["node"]].start()      # Stream.start() walks upstream ("start any upstream sources")
+            elif kind == "restart":
+                self.nodes[op["node"]].stop()       # stop() and start() again, both walk upstream
+                self.nodes[op["node"]].start()
             elif kind == "drop":
                 self.nodes[op["node"]] = None
             elif kind == "jobdone":
@@ -418,6 +423,11 @@ class Run:
             elif kind == "multi":
                 # several operations in ONE loop callback (no settling in between): a completion racing an emission
                 for i, sub in enumerate(op["ops"]):
+                    if sub["op"] == "after":
+                        # {"op":"after","n":k,"ops":[...]}: those operations happen k loop iterations later, in a callback queued NOW -
+                        # i.e. before the handles that the following operations of this callback make runnable
+                        self._later(sub["n"], sub["ops"])
+                        continue
                     if sub["op"] == "turns":
                         # the remaining operations happen `n` loop iterations later (still without settling in between):
                         # an emission placed at an exact distance from the wake-ups a completion causes
@@ -426,7 +436,7 @@ class Run:
                     err = self.do_sync(sub)
                     if err is not None:
                         return err
-            elif kind == "turns":
+            elif kind in ("turns", "after"):
                 pass
             elif kind in ("counts", "links", "advance", "settle"):
                 pass
